@@ -393,6 +393,7 @@ FIXED_PROGRAMS = {
     "optional-reentrant-loop": ir.Program([], ["h0"], [], [], [], (("optional", (_ABLOOP,)), _SEMI), ["-O3"]),
     "loop-optional-reentrant-regex": ir.Program([], ["h0"], [], [], [], (("loop", None, (("optional", (("match", _ASTARB),)), _SEMI)),), ["-O1"]),
     "break-in-clause-skips-trailing-actions": ir.Program([], ["h0"], [], [], [], (("loop", None, (("case", False, (((("lit", b"x", "str"),), None, (("break", None),)), ((("lit", b"y", "str"),), None, ()))), ("hook", "h0"))), _SEMI), ["-O1"]),
+    "two-pattern-clause-body-double-chained": ir.Program([("str", "s0", 1, False, b"", False)], ["h0"], [], [], [], (("try", None, (("case", False, (((("lit", b"aa", "str"),), None, ()), ((("lit", b"b", "str"), ("lit", b"ab", "str")), None, (("append", "s0", ("re", ("lit", 0x61), True)),)))),), ()), ("hook", "h0")), ["-O0"]),
     "optional-start-hook-reentrant": ir.Program([], ["h0"], [], [], [], (("match", ("lit", b"x", "str")), ("optional", (("hook", "h0"), ("match", _ASTARB))), _SEMI), ["-O1"]),
 }
 
